@@ -1,4 +1,5 @@
 pub mod c16;
+pub mod market;
 
 #[derive(Clone, Debug)]
 pub struct RunCfg {
